@@ -80,6 +80,8 @@ def execution_programs(r, recs, n):
         op = {"op": "dilution", "params": p, "stock": 0, "stock_column": sc, "diluent": 1, "diluent_column": dc, "plate": 2,
               "mix_repeat": r.choice([0, 1, 2]), "mix_volume": r.choice([0.5, 0.25, 0.8, 0.8]), "mix_wash": r.choice([2, "flush", "reuse"]),
               "roomy": True}
+        if r.random() < 0.4:
+            op["mix_threshold"] = r.choice([0.0, 0.05, 0.5, 1.0, 2.0])
         # what stays in every well after the planned serial transfers: an extra transfer to a destination
         # plate must fit into that (it is requested by the caller, not part of the plan's budget)
         left = min(vmax[c] - sum(it["v"][rr] for it in rec["instr"] if it["src"] == c + 1) for c in range(C) for rr in range(R))
